@@ -217,12 +217,17 @@ def _types(s):
     return set(t if isinstance(t, list) else [t])
 
 
+_DOC = [None]
+
+
 def v1_coercing_union(s, pos):
     for key in ("anyOf", "oneOf"):
         if key in s:
-            ts = [_types(a) for a in s[key] if isinstance(a, dict)]
-            if any("string" in t for t in ts) and any(t & {"integer", "number", "boolean"} for t in ts):
-                return True
+            alts = [ss.resolve(_DOC[0], a) if (_DOC[0] is not None and isinstance(a, dict) and "$ref" in a) else a for a in s[key]]
+            ts = [_types(a) for a in alts if isinstance(a, dict)]
+            scalars = set().union(*ts) & {"string", "integer", "number", "boolean"} if ts else set()
+            if len(scalars) >= 2:
+                return True   # pydantic v1 tries the alternatives left to right with coercion (0 -> "0", true -> 1, 1 -> 1.0)
     return False
 
 
@@ -264,6 +269,7 @@ def in_known_class(doc, kind, opts):
     if kind == V1 and opts.get("use_annotated") and renamed_members(doc):
         return True  # C03-v1-annotated-alias-lost
     if kind == V1:
+        _DOC[0] = doc
         if has(doc, v1_coercing_union):
             return True  # C03-v1-union-coercion
         if has(doc, lambda s, pos: is_nullable_enum(s)):
